@@ -877,16 +877,16 @@ where
     /// [`from_binary`]: #method.from_binary
     /// [`into_compressed`]: #method.into_compressed
     pub fn into_binary(mut self) -> Result<Backend, Option<Backend::WriteError>> {
-        let valid_bits = (State::BITS - 1).wrapping_sub(self.state.leading_zeros() as usize);
-
-        if valid_bits % Word::BITS != 0 || valid_bits == usize::MAX {
-            Err(None)
-        } else {
-            let truncated_state = self.state ^ (State::one() << valid_bits);
-            self.bulk
-                .extend_from_iter(bit_array_to_chunks_truncated(truncated_state).rev())?;
-            Ok(self.bulk)
+        // The most significant nonzero chunk of `state` has to be the marker bit that
+        // `from_binary` put above the data. We must not strip the marker from `state` *before*
+        // chunking it since `bit_array_to_chunks_truncated` would then also drop any zero words
+        // that the binary data ends in.
+        let mut chunks_rev = bit_array_to_chunks_truncated(self.state);
+        if chunks_rev.next() != Some(Word::one()) {
+            return Err(None);
         }
+        self.bulk.extend_from_iter(chunks_rev.rev())?;
+        Ok(self.bulk)
     }
 }
 
